@@ -13,8 +13,9 @@ Record obs := { o_kind : Z;                (* 0 = nothing to compare, 1 = succes
 Definition mk_obs k b r : obs := {| o_kind := k; o_bal := b; o_rel := r |}.
 
 Record hist := { h_bal : list (key * Z); h_pairs : list Z; h_accts : list Z; h_seq : list (Z * Z);
+                 h_chanid : list (Z * Z);   (* model channel -> the number N of its id "channel-N" *)
                  h_ops : list (op * obs) }.
-Definition mk_hist b p a q ops : hist := {| h_bal := b; h_pairs := p; h_accts := a; h_seq := q; h_ops := ops |}.
+Definition mk_hist b p a q ci ops : hist := {| h_bal := b; h_pairs := p; h_accts := a; h_seq := q; h_chanid := ci; h_ops := ops |}.
 
 Definition mk_in src dst sender d amt addr_ok hex recv m : inpacket :=
   {| ip_src := src; ip_dst := dst; ip_sender := sender; ip_denom := d; ip_amt := amt; ip_addr_ok := addr_ok;
@@ -23,9 +24,13 @@ Definition mk_in src dst sender d amt addr_ok hex recv m : inpacket :=
 Fixpoint lookup2 (l : list (Z * Z)) (c : Z) : Z :=
   match l with [] => 1 | (c', v) :: r => if c' =? c then v else lookup2 r c end.
 
+(* channels the harness does not name get ids that are no decimal prefix of one another *)
+Fixpoint lookup_id (l : list (Z * Z)) (c : Z) : Z :=
+  match l with [] => 1000 + c | (c', v) :: r => if c' =? c then v else lookup_id r c end.
+
 Definition h_init (h : hist) : ist :=
   {| ibal := lookup (h_bal h); rel := []; nextseq := lookup2 (h_seq h); commits := []; sent := [];
-     pair_on := fun t => memZ t (h_pairs h); has_acct := fun a => memZ a (h_accts h); ilog := [] |}.
+     pair_on := fun t => memZ t (h_pairs h); has_acct := fun a => memZ a (h_accts h); chanid := lookup_id (h_chanid h); ilog := [] |}.
 
 (* one operation with its observable result class *)
 Definition step_obs (s : ist) (o : op) : ist * Z :=
